@@ -336,8 +336,15 @@ impl<'a, T: 'a> State<'a, T> {
                 None
             }
             Custom { value, coord } if coord == c => {
-                custom.update(CustomEvent::Release(value));
-                None
+                if matches!(custom, CustomEvent::Release(_)) {
+                    // Only one custom release can be reported per tick and one is already being
+                    // reported. Keep this one as a pending custom release so that it is reported
+                    // on a following tick instead of being lost.
+                    Some(SeqCustomActive(value))
+                } else {
+                    custom.update(CustomEvent::Release(value));
+                    None
+                }
             }
             _ => Some(*self),
         }
@@ -1497,13 +1504,26 @@ impl<'a, const C: usize, const R: usize, T: 'a + Copy + std::fmt::Debug> Layout<
                 let mut custom = CustomEvent::NoEvent;
                 let (do_release, overflow_key) = self.oneshot.handle_release((i, j));
                 if do_release {
-                    self.states.retain(|s| {
-                        !s.clear_on_next_release() && s.release((i, j), &mut custom).is_some()
+                    self.states.retain_mut(|s| {
+                        !s.clear_on_next_release()
+                            && match s.release((i, j), &mut custom) {
+                                Some(new_state) => {
+                                    *s = new_state;
+                                    true
+                                }
+                                None => false,
+                            }
                     });
                 }
                 if let Some((i2, j2)) = overflow_key {
                     self.states
-                        .retain(|s| s.release((i2, j2), &mut custom).is_some());
+                        .retain_mut(|s| match s.release((i2, j2), &mut custom) {
+                            Some(new_state) => {
+                                *s = new_state;
+                                true
+                            }
+                            None => false,
+                        });
                 }
                 custom
             }
